@@ -352,6 +352,12 @@ def run(case):
                     yield "list:strings", [("r", {"LS": L})]
                 for L in ([[["a"], ["b c"]], [["d"]]], [[[]]], []):
                     yield "list:nested3", [("r", {"LLS": L})]
+                # LONG lists (a serialiser may fold them over several lines): string items with blanks, of several lengths so that a
+                # line break lands inside an item for some of them; long number and reference-free lists as well
+                for k in (3, 5, 7, 11, 13):
+                    yield "list:long-strings", [("r", {"LS": ["%s region %d" % ("South Coast Ranges"[:k + i % 5], i) for i in range(12)]})]
+                    yield "list:long-untyped", [("r", {"L": ["name with blanks %d %s" % (i, "x" * (k % 4)) for i in range(9)]})]
+                yield "list:long-numbers", [("r", {"LN": [i + 0.125 for i in range(40)]})]
                 for md in ({}, {"DisplayName": "The Command"}, {"A": "B", "C": "d e"}, {"k 1": "v:1", "k2": "say \"x\""}, {"K": "a\\b"}):
                     yield "metadata", [("r", {"N": 1, "Metadata": md})]
                 for dt in ("Float", "Integer"):
